@@ -1,4 +1,6 @@
 import Sudachi.Proofs.Edit
+import Sudachi.Proofs.EditAccess
+import Sudachi.Proofs.EditExact
 /-!
 # C08 — Code-point offsets agree with byte offsets; the offset map is monotone and anchored
 
@@ -87,5 +89,317 @@ example :
     BoOf o 0 ∧
     (commitAll (identFrom 0 o) [b1, b2]).map snds = some [0, 3, 3, 3, 3, 3, 3, 4, 5, 9] := by
   refine ⟨Or.inr ⟨by decide, by decide⟩, by decide⟩
+
+/-! ## depth round: the code-point offsets of a morpheme, the two routes, and the accessor family of `InputBuffer`
+
+`EditM.Reached o bs lv l` (`Proofs/EditAccess.lean`) abbreviates the hypotheses of `m2o_inv`: `l` is the buffer (`modified` + `m2o`) reached
+from the non-empty original text `o` (which begins with a character's first byte) by the admissible batches `bs`
+under either length guard.  A node of the result has a CHARACTER range `bc..ec` and a BYTE range `bb..eb` of the
+rewritten text; `resolve_best_path`/`NodeSplitIterator::next` make them consistent: `bb = mod_c2b[bc]`,
+`eb = mod_c2b[ec]` (C01 `PathOk`; hypotheses `hb`, `he` where the byte route is involved). -/
+
+/-- **`morpheme_codepoints`** (first sentence of the property, full strength): for a buffer reached by any admissible
+batches, a node whose character range is `[bc, ec)` of the rewritten text has `begin()`/`end()` defined
+(`to_orig_byte_idx`: no index out of range), `begin ≤ end ≤ |original|`, both character boundaries of the original, and
+`begin_c()`/`end_c()` (`to_orig_char_idx`: never the `usize::MAX` marker, so the `debug_assert_ne!` cannot fire) are the
+numbers of code points of the ORIGINAL text before the byte offsets `begin()`/`end()` report; they are ordered. -/
+theorem morpheme_codepoints (o : List Nat) (bs : List (List (Edit Nat))) (lv : LenV) (l : List (P Nat))
+    (hr : Reached o bs lv l) (bc ec : Nat) (hbe : bc ≤ ec) (hec : ec ≤ nchars (textOf l)) :
+    ∃ b e, toOrigByteIdx l bc = some b ∧ toOrigByteIdx l ec = some e ∧
+      b ≤ e ∧ e ≤ o.length ∧ BoOf o b ∧ BoOf o e ∧
+      toOrigCharIdx o l bc = some (nchars (o.take b)) ∧ toOrigCharIdx o l ec = some (nchars (o.take e)) ∧
+      nchars (o.take b) ≤ nchars (o.take e) := by
+  have hinv := hr.inv
+  obtain ⟨x, hx, _, _, _, hxb, hxo, _⟩ := toOrigByteIdx_spec o l hinv bc (by omega)
+  obtain ⟨y, hy, hyl, _, _, hyb, hyo, hyn⟩ := toOrigByteIdx_spec o l hinv ec hec
+  have hxy : x ≤ y := c2b_getElem_mono _ _ _ _ _ hbe hx hy
+  have hle : valAt l x ≤ valAt l y := mono_valAt hinv.mono hxy hyl
+  have hpos := nchars_pos_of o hr.1 hr.2.1
+  refine ⟨_, _, hxb, hyb, hle, hyn, hxo, hyo, ?_, ?_, nchars_take_mono o hle⟩
+  · unfold toOrigCharIdx; rw [hxb]; simp only []; rw [EditM.origB2C_counts o hpos _ hxo]
+  · unfold toOrigCharIdx; rw [hyb]; simp only []; rw [EditM.origB2C_counts o hpos _ hyo]
+
+/-- **the character route and the byte route of `Morpheme` agree**: `begin()`/`end()` go through `mod_c2b` then `m2o`
+(`morphRangeC`), `surface()` slices `original[m2o[bb]..m2o[eb]]` (`morphRangeB`); for a node whose byte range is the
+`mod_c2b` image of its character range they are the same pair (also when undefined).  (C09 `routes_agree` shows that
+split units satisfy `hb`/`he`; C01 `PathOk` carries them through the whole analysis.) -/
+theorem routes_agree (l : List (P Nat)) (n : NodeRange)
+    (hb : (c2b (textOf l))[n.bc]? = some n.bb) (he : (c2b (textOf l))[n.ec]? = some n.eb) :
+    morphRangeC l n = morphRangeB l n := by
+  simp [morphRangeC, morphRangeB, toOrigByteIdx, hb, he]
+
+/-- **slicing by code points = slicing by bytes** (`slice_agree`): with `b..e` the byte offsets and `cb..ce` the
+code-point offsets a node reports, character number `cb` (`ce`) of the ORIGINAL text begins at byte `b` (`e`) - so the
+code-point slice `original[cb:ce]` (what Python's `text[m.begin():m.end()]` and the pre-tokenizer's
+`string.slice(begin_c..end_c)` take) is the byte slice `original[b..e]` = `surface()` -, and Python's
+`len(m) = end_c - begin_c` is the number of code points of that surface. -/
+theorem slice_agree (o : List Nat) (bs : List (List (Edit Nat))) (lv : LenV) (l : List (P Nat))
+    (hr : Reached o bs lv l) (bc ec : Nat) (hbe : bc ≤ ec) (hec : ec ≤ nchars (textOf l)) :
+    ∃ b e cb ce, toOrigByteIdx l bc = some b ∧ toOrigByteIdx l ec = some e ∧
+      toOrigCharIdx o l bc = some cb ∧ toOrigCharIdx o l ec = some ce ∧
+      (c2b o)[cb]? = some b ∧ (c2b o)[ce]? = some e ∧ ce - cb = nchars (slice o b e) := by
+  obtain ⟨b, e, h1, h2, h3, _, h5, h6, h7, h8, _⟩ := morpheme_codepoints o bs lv l hr bc ec hbe hec
+  exact ⟨b, e, _, _, h1, h2, h7, h8, c2b_nchars_take o b h5, c2b_nchars_take o e h6, (nchars_slice o h3).symm⟩
+
+/-- **code-point offsets are anchored**: the end of the rewritten text reports the number of code points of the
+original; its start reports 0 (hypothesis `h0t`: the rewritten text begins with a character's first byte - true of
+every Rust `String`, not implied by `BatchesOk`, which does not constrain the replacement bytes). -/
+theorem codepoints_anchored (o : List Nat) (bs : List (List (Edit Nat))) (lv : LenV) (l : List (P Nat))
+    (hr : Reached o bs lv l) :
+    toOrigCharIdx o l (nchars (textOf l)) = some (nchars o) ∧
+    (BoOf (textOf l) 0 → toOrigByteIdx l 0 = some 0 ∧ toOrigCharIdx o l 0 = some 0) := by
+  have hinv := hr.inv
+  have hlen := shape_length hinv.shape
+  have hpos := nchars_pos_of o hr.1 hr.2.1
+  constructor
+  · have h1 : toOrigByteIdx l (nchars (textOf l)) = some o.length := by
+      unfold toOrigByteIdx
+      rw [c2b_last]; simp only []
+      rw [snds_getElem? l _ (by omega), inv_last hinv]
+    unfold toOrigCharIdx
+    rw [h1]; simp only []
+    rw [EditM.origB2C_counts o hpos _ (Or.inl rfl)]; simp
+  · intro h0t
+    have h1 : toOrigByteIdx l 0 = some 0 := by
+      unfold toOrigByteIdx
+      rw [c2b_head _ h0t]; simp only []
+      rw [snds_getElem? l _ (by omega), hinv.first]
+    refine ⟨h1, ?_⟩
+    unfold toOrigCharIdx
+    rw [h1]; simp only []
+    rw [EditM.origB2C_counts o hpos _ hr.2.1]; simp [nchars]
+
+/-- **every offset accessor of a morpheme is defined and both routes give the surface**
+(`EditAcc.morpheme` = `Morpheme::{begin, end, begin_c, end_c, surface}` with every index check, `debug_assert!` and `str`
+slice check of the debug profile; `EditAcc.pyOffsets` = Python `begin()/end()/len()`): for a reached buffer and a node
+inside the text whose byte range is the `mod_c2b` image of its character range, nothing panics, `surface()` is
+`original[begin..end]`, `begin_c`/`end_c` are the code points before `begin`/`end`, and `len(m)` is the number of code
+points of the surface. -/
+theorem morpheme_accessors_total (o : List Nat) (bs : List (List (Edit Nat))) (lv : LenV) (l : List (P Nat))
+    (hr : Reached o bs lv l) (n : NodeRange) (hbe : n.bc ≤ n.ec) (hec : n.ec ≤ nchars (textOf l))
+    (hb : (c2b (textOf l))[n.bc]? = some n.bb) (he : (c2b (textOf l))[n.ec]? = some n.eb) :
+    ∃ B E, B ≤ E ∧ E ≤ o.length ∧
+      EditAcc.morpheme ⟨o, l⟩ n = .ok ⟨B, E, nchars (o.take B), nchars (o.take E), slice o B E⟩ ∧
+      EditAcc.pyOffsets ⟨o, l⟩ n = .ok (nchars (o.take B), nchars (o.take E), nchars (slice o B E)) := by
+  have hinv := hr.inv
+  obtain ⟨B, E, h1, h2, h3, h4, h5, h6, h7, h8, h9⟩ := morpheme_codepoints o bs lv l hr n.bc n.ec hbe hec
+  have hpos := nchars_pos_of o hr.1 hr.2.1
+  obtain ⟨hbb, hbl⟩ := c2b_getElem_boOf _ _ _ hb
+  obtain ⟨heb, hel⟩ := c2b_getElem_boOf _ _ _ he
+  have hlen := shape_length hinv.shape
+  -- the byte route reads the same two map entries
+  have hB : (snds l)[n.bb]? = some B := by
+    have := h1; unfold toOrigByteIdx at this; rw [hb] at this; exact this
+  have hE : (snds l)[n.eb]? = some E := by
+    have := h2; unfold toOrigByteIdx at this; rw [he] at this; exact this
+  have a1 := EditAcc.toOrigByteIdxA_eq ⟨o, l⟩ n.bc B h1
+  have a2 := EditAcc.toOrigByteIdxA_eq ⟨o, l⟩ n.ec E h2
+  have a3 := EditAcc.toOrigCharIdxA_eq ⟨o, l⟩ n.bc B _ h1 (EditM.origB2C_counts o hpos _ h5)
+  have a4 := EditAcc.toOrigCharIdxA_eq ⟨o, l⟩ n.ec E _ h2 (EditM.origB2C_counts o hpos _ h6)
+  have a5 : EditAcc.origSlice ⟨o, l⟩ n.bb n.eb = .ok (slice o B E) := by
+    unfold EditAcc.origSlice
+    rw [if_pos ⟨EditAcc.isCharBoundary_of_boOf _ _ hbb, EditAcc.isCharBoundary_of_boOf _ _ heb⟩]
+    unfold EditAcc.toOrig
+    simp only [EditAcc.Buf.m2o]
+    rw [EditAcc.idx_ok _ _ _ _ hB, EditAcc.idx_ok _ _ _ _ hE]
+    simp only []
+    exact EditAcc.strSlice_ok o B E h3 h5 h6
+  refine ⟨B, E, h3, h4, ?_, ?_⟩
+  · unfold EditAcc.morpheme
+    rw [a1, a2, a3, a4, a5]
+  · unfold EditAcc.pyOffsets
+    rw [a3, a4]; simp only []
+    rw [if_pos h9, nchars_slice o h3]
+
+/-- **`get_original_index`, exactly**: on a character boundary of the rewritten text (`str::is_char_boundary`) it
+returns the map entry, which is a character boundary of the original inside it; anywhere else (inside a character,
+beyond the end) the `debug_assert!` fires. -/
+theorem get_original_index_spec (o : List Nat) (bs : List (List (Edit Nat))) (lv : LenV) (l : List (P Nat))
+    (hr : Reached o bs lv l) (i : Nat) :
+    (EditAcc.isCharBoundary (textOf l) i = true →
+      EditAcc.getOriginalIndex ⟨o, l⟩ i = .ok (valAt l i) ∧ BoOf o (valAt l i) ∧ valAt l i ≤ o.length) ∧
+    (EditAcc.isCharBoundary (textOf l) i = false → ∃ w, EditAcc.getOriginalIndex ⟨o, l⟩ i = .panic w) := by
+  have hinv := hr.inv
+  have hlen := shape_length hinv.shape
+  constructor
+  · intro hb
+    have hil : i ≤ (textOf l).length ∧ BoOf o (valAt l i) := by
+      rcases Nat.eq_zero_or_pos i with rfl | hpos
+      · exact ⟨Nat.zero_le _, by rw [hinv.first]; exact hr.2.1⟩
+      · have hbo := EditAcc.boOf_of_isCharBoundary _ _ hpos hb
+        have hle : i ≤ (textOf l).length := by rcases hbo with h | ⟨h, _⟩ <;> omega
+        exact ⟨hle, inv_boundary hinv i (by omega) (isB_of_boOf hinv.shape i hbo (by omega))⟩
+    refine ⟨?_, hil.2, inv_le_last hinv i hil.1⟩
+    unfold EditAcc.getOriginalIndex
+    simp only [EditAcc.Buf.cur, hb, if_true]
+    exact EditAcc.idx_ok _ _ _ _ (snds_getElem? l i (by omega))
+  · intro hb
+    exact ⟨_, by unfold EditAcc.getOriginalIndex; simp only [EditAcc.Buf.cur, hb]; rfl⟩
+
+/-- **`char_distance`, exactly** (any buffer): inside the text it is `offset` cut off at the end of the text (it never
+reports a position beyond the last character: the repaired MeCab provider relies on it); a start beyond the end is
+`attempt to subtract with overflow` in the debug profile. -/
+theorem char_distance_spec (b : EditAcc.Buf) (cpt off : Nat) :
+    (cpt ≤ b.nch → EditAcc.charDistance b cpt off = .ok (Nat.min off (b.nch - cpt)) ∧ cpt + Nat.min off (b.nch - cpt) ≤ b.nch) ∧
+    (b.nch < cpt → ∃ w, EditAcc.charDistance b cpt off = .panic w) := by
+  constructor
+  · intro h
+    have h1 : cpt ≤ Nat.min (cpt + off) b.nch := by
+      show cpt ≤ min (cpt + off) b.nch
+      omega
+    have h2 : Nat.min (cpt + off) b.nch - cpt = Nat.min off (b.nch - cpt) := by
+      show min (cpt + off) b.nch - cpt = min off (b.nch - cpt)
+      omega
+    refine ⟨?_, ?_⟩
+    · unfold EditAcc.charDistance
+      simp only []
+      rw [if_pos h1, h2]
+    · show cpt + min off (b.nch - cpt) ≤ b.nch
+      omega
+  · intro h
+    have h1 : ¬ cpt ≤ Nat.min (cpt + off) b.nch := by
+      show ¬ cpt ≤ min (cpt + off) b.nch
+      omega
+    exact ⟨_, by unfold EditAcc.charDistance; simp only []; rw [if_neg h1]⟩
+
+/-- **`ch_idx ∘ to_curr_byte_idx` is the identity** (any text with at least one character; what
+`NodeSplitIterator::next` relies on when it snaps a byte end to a character start): for every character index `i` up
+to and including the end index both look-ups are in range and `mod_b2c[mod_c2b[i]] = i`; beyond the sentinel
+`to_curr_byte_idx` is an index panic. -/
+theorem ch_idx_roundtrip (b : EditAcc.Buf) (hpos : 0 < b.nch) (i : Nat) :
+    (i ≤ b.nch → ∃ x, EditAcc.toCurrByteIdx b i = .ok x ∧ x ≤ b.cur.length ∧ EditAcc.chIdx b x = .ok i) ∧
+    (b.nch < i → ∃ w, EditAcc.toCurrByteIdx b i = .panic w) := by
+  constructor
+  · intro hi
+    obtain ⟨x, hx⟩ := c2b_getElem_some b.cur i hi
+    exact ⟨x, EditAcc.idx_ok _ _ _ _ hx, (c2b_getElem_boOf _ _ _ hx).2,
+      EditAcc.idx_ok _ _ _ _ (b2c_c2b b.cur i x hi hpos hx)⟩
+  · intro hi
+    exact ⟨_, by unfold EditAcc.toCurrByteIdx EditAcc.idx; rw [c2b_getElem_none _ _ hi]⟩
+
+/-- **the slices by character index** (`curr_slice_c`, `orig_slice_c`) of a reached buffer, for `s ≤ e` inside the
+text: both are defined; `curr_slice_c` is the rewritten text between the two characters' first bytes and `orig_slice_c`
+is the slice of the ORIGINAL between their images - the same bytes `orig_slice` returns for that byte range. -/
+theorem slices_by_chars (o : List Nat) (bs : List (List (Edit Nat))) (lv : LenV) (l : List (P Nat))
+    (hr : Reached o bs lv l) (s e : Nat) (hse : s ≤ e) (hen : e ≤ nchars (textOf l)) :
+    ∃ x y, (c2b (textOf l))[s]? = some x ∧ (c2b (textOf l))[e]? = some y ∧ x ≤ y ∧
+      EditAcc.currSliceC ⟨o, l⟩ s e = .ok (slice (textOf l) x y) ∧
+      EditAcc.origSliceC ⟨o, l⟩ s e = .ok (slice o (valAt l x) (valAt l y)) ∧
+      EditAcc.origSlice ⟨o, l⟩ x y = .ok (slice o (valAt l x) (valAt l y)) := by
+  have hinv := hr.inv
+  obtain ⟨x, hx, hxl, _, hxb, hxo, hxB, _⟩ := toOrigByteIdx_spec o l hinv s (by omega)
+  obtain ⟨y, hy, hyl, _, hyb, hyo, hyB, _⟩ := toOrigByteIdx_spec o l hinv e hen
+  have hxy : x ≤ y := c2b_getElem_mono _ _ _ _ _ hse hx hy
+  have hle : valAt l x ≤ valAt l y := mono_valAt hinv.mono hxy hyl
+  have hsl := EditAcc.strSlice_ok o _ _ hle hxB hyB
+  refine ⟨x, y, hx, hy, hxy, ?_, ?_, ?_⟩
+  · unfold EditAcc.currSliceC EditAcc.toCurrByteIdx
+    simp only [EditAcc.Buf.cur]
+    rw [EditAcc.idx_ok _ _ _ _ hx, EditAcc.idx_ok _ _ _ _ hy]
+    simp only []
+    exact EditAcc.strSlice_ok _ _ _ hxy hxb hyb
+  · unfold EditAcc.origSliceC
+    rw [EditAcc.toOrigByteIdxA_eq ⟨o, l⟩ s _ hxo, EditAcc.toOrigByteIdxA_eq ⟨o, l⟩ e _ hyo]
+    simp only []
+    exact hsl
+  · unfold EditAcc.origSlice
+    rw [if_pos ⟨EditAcc.isCharBoundary_of_boOf _ _ hxb, EditAcc.isCharBoundary_of_boOf _ _ hyb⟩]
+    unfold EditAcc.toOrig
+    simp only [EditAcc.Buf.m2o]
+    rw [EditAcc.idx_ok _ _ _ _ (snds_getElem? l x hxl), EditAcc.idx_ok _ _ _ _ (snds_getElem? l y hyl)]
+    simp only []
+    exact hsl
+
+/-- non-vacuity of `Reached`, `h0t`, `hb`/`he` and the range hypotheses: `宇宙人`, first character replaced by `あい`, then
+the third character of the result deleted (two batches): the node "characters 1..3" (`い宙`, bytes 3..9) of the rewritten
+text `あい宙人`... reports bytes 3..6, code points 1..2, surface `宙`; the last node reports the end of the original. -/
+example :
+    let o := [0xE5, 0xAE, 0x87, 0xE5, 0xAE, 0x99, 0xE4, 0xBA, 0xBA]
+    let b1 : List (Edit Nat) := [⟨0, 3, [0xE3, 0x81, 0x82, 0xE3, 0x81, 0x84]⟩]
+    let b2 : List (Edit Nat) := [⟨9, 12, []⟩]
+    ∃ l, commitAllV .final (identFrom 0 o) [b1, b2] = some l ∧ o ≠ [] ∧ BoOf o 0 ∧ BoOf (textOf l) 0 ∧
+      nchars (textOf l) = 3 ∧ (c2b (textOf l))[1]? = some 3 ∧ (c2b (textOf l))[3]? = some 9 ∧
+      EditAcc.morpheme ⟨o, l⟩ ⟨1, 3, 3, 9⟩ = .ok ⟨3, 9, 1, 3, [0xE5, 0xAE, 0x99, 0xE4, 0xBA, 0xBA]⟩ ∧
+      EditAcc.pyOffsets ⟨o, l⟩ ⟨1, 3, 3, 9⟩ = .ok (1, 3, 2) ∧
+      EditAcc.morpheme ⟨o, l⟩ ⟨0, 1, 0, 3⟩ = .ok ⟨0, 3, 0, 1, [0xE5, 0xAE, 0x87]⟩ := by
+  refine ⟨_, rfl, by decide, Or.inr ⟨by decide, by decide⟩, Or.inr ⟨by decide, by decide⟩, by decide, by decide,
+    by decide, by decide, by decide, by decide⟩
+
+/-- non-vacuity of the panic branches: inside a character `get_original_index` asserts; `char_distance` from beyond the end
+underflows; `to_orig_char_idx` on a map entry inside a character (NOT reachable by admissible batches: here a hand-made
+map) meets the `usize::MAX` marker -/
+example :
+    let o := [0xE5, 0xAE, 0x87, 0x61]
+    EditAcc.getOriginalIndex ⟨o, identFrom 0 o⟩ 1 = .panic "debug_assert: off char boundary" ∧
+    EditAcc.getOriginalIndex ⟨o, identFrom 0 o⟩ 3 = .ok 3 ∧
+    EditAcc.charDistance ⟨o, identFrom 0 o⟩ 3 1 = .panic "attempt to subtract with overflow" ∧
+    EditAcc.charDistance ⟨o, identFrom 0 o⟩ 1 5 = .ok 1 ∧
+    EditAcc.toOrigCharIdxA ⟨o, [(some 0x61, 0), (some 0x61, 1), (none, 4)]⟩ 1 = .panic "debug_assert_ne: usize::MAX marker" := by
+  decide
+
+/-- observations OUTSIDE the property's quantifier (it asks for a non-empty text after every batch), reproduced on the real
+buffer by the directed `acc` cases 0 and 1: for an EMPTY original `to_orig_char_idx(0)` is 1 (`fill_orig_b2c` writes `max + 1`
+with `max = 0` although there is no character; likewise the `mod_b2c` sentinel: `ch_idx(0) = 1`), and when a batch deletes
+the WHOLE text the only map entry left is the sentinel, which "the first entry MUST be 0" overwrites: end ↦ 0, not end ↦ 1. -/
+example :
+    EditAcc.toOrigCharIdxA ⟨[], identFrom 0 []⟩ 0 = .ok 1 ∧ EditAcc.chIdx ⟨[], identFrom 0 []⟩ 0 = .ok 1 ∧
+    (commitAllV .final (identFrom 0 [0x61]) [[⟨0, 1, []⟩]]).map snds = some [0] := by
+  decide
+
+/-- **unreplaced bytes map to themselves: start exact, the image covers the byte** (last clause of the property).
+`resolve_edits` is polymorphic in the text elements, so the same batches can be run on TAGGED bytes (`tagIdent`: byte `k`
+of the original tagged `some k`; `tagBatches`: every replacement byte tagged `none`); the tagged run exists, and erasing
+the tags gives the untagged buffer `l` (same map values).  For every entry tagged `some k` - byte `k` of the original,
+copied by every batch, never written by a replacement -: it still carries the byte `o[k]`, its map value is `k` itself (or 0:
+"the first entry MUST be 0", i.e. deleted text before the first character attaches to it), the NEXT entry's value is at
+least `k + 1` - the image `[m2o[i], m2o[i+1])` of the byte contains the byte -, no entry of the map has a value strictly
+between the two (what lies between was deleted or replaced), and when the next entry is itself an unreplaced byte `k'` the
+image ends EXACTLY at `k'` (two surviving bytes that are neighbours in the rewritten text: everything between them is gone
+and attaches to the first).
+FULL statement (DESIGN §3 C08 `unreplaced_exact`), NOT proved: the next value is EXACTLY `k + 1` unless the bytes directly
+after `k` were deleted, in which case it is the end of that deletion run - this needs the deletions as ghost state; it is
+decided by the oracle `c08:unreplaced` (exact end unless `del_after`) and the correspondence on every `edits` line. -/
+theorem unreplaced_exact_partial (o : List Nat) (bs : List (List (Edit Nat))) (lv : LenV) (l : List (P Nat))
+    (hr : Reached o bs lv l) :
+    ∃ lt : List (P (Nat × Option Nat)),
+      commitAllV lv (tagIdent o) (tagBatches bs) = some lt ∧ mapP Prod.fst lt = l ∧ snds lt = snds l ∧
+      ∀ (i : Nat) (h : i + 1 < lt.length) (b k : Nat), (lt[i]).1 = some (b, some k) →
+        (∃ hk : k < o.length, b = o[k]) ∧ ((lt[i]).2 = k ∨ (lt[i]).2 = 0) ∧ k + 1 ≤ (lt[i + 1]).2 ∧
+        (∀ (j : Nat) (hj : j < lt.length), ¬ ((lt[i]).2 < (lt[j]).2 ∧ (lt[j]).2 < (lt[i + 1]).2)) ∧
+        (∀ b' k', (lt[i + 1]).1 = some (b', some k') → (lt[i + 1]).2 = k') := by
+  obtain ⟨lt, h1, h2, h3, h4, h5⟩ := tagged_run o bs lv l hr.2.2.1 hr.2.2.2
+  refine ⟨lt, h1, h2, h3, ?_⟩
+  intro i h b k hb
+  obtain ⟨g1, g2⟩ := h5 lt[i] (List.getElem_mem _) b k hb
+  have g3 := chain_getElem lt h4 i h (b, some k) k hb rfl
+  refine ⟨g1, g2, g3, ?_, ?_⟩
+  rotate_left
+  · intro b' k' hb'
+    rcases (h5 lt[i + 1] (List.getElem_mem _) b' k' hb').2 with e | e
+    · exact e
+    · omega
+  intro j hj ⟨c1, c2⟩
+  have hm : Mono (snds lt) := by rw [h3]; exact hr.inv.mono
+  have hp := List.pairwise_iff_getElem.mp hm
+  have hv : ∀ (a : Nat) (ha : a < lt.length), (snds lt)[a]'(by simpa [snds] using ha) = (lt[a]).2 := by
+    intro a ha; simp [snds]
+  rcases Nat.lt_or_ge i j with hij | hij
+  · rcases Nat.lt_or_ge (i + 1) j with h' | h'
+    · have := hp (i + 1) j (by simpa [snds] using h) (by simpa [snds] using hj) h'
+      rw [hv _ h, hv _ hj] at this; omega
+    · have : j = i + 1 := by omega
+      subst this; omega
+  · rcases Nat.lt_or_ge j i with h' | h'
+    · have := hp j i (by simpa [snds] using hj) (by simp [snds]; omega) h'
+      rw [hv _ hj, hv _ (by omega)] at this; omega
+    · have : j = i := by omega
+      subst this; omega
+
+/-- non-vacuity of the tagged run: `ab`, batch 1 deletes `a`, batch 2 inserts `xy` before `b`: the entry of `b` is tagged
+`some 1`, its value was forced to 0 by the first batch; the inserted bytes are tagged `none` -/
+example :
+    commitAllV .final (tagIdent [0x61, 0x62]) (tagBatches [[⟨0, 1, []⟩], [⟨0, 0, [0x78, 0x79]⟩]])
+      = some [(some (0x78, none), 0), (some (0x79, none), 0), (some (0x62, some 1), 0), (none, 2)] := by
+  decide
 
 end C08
